@@ -404,6 +404,21 @@ def _some_edges(body, call_term):
     return edges
 
 
+def local_record_adts(body):
+    """Names of the enums / structs that are defined inside the function itself (the write-back record `Assign` of the assignment
+    lowering, whatever it is called): ADTs whose path lies below the function's own path."""
+    out = set()
+    pre = body.id + "::"
+    for b in range(body.n):
+        for st in body.blocks[b]["stmts"]:
+            if st["k"] == "assign" and st["rv"]["k"] == "aggregate" and (st["rv"].get("adt") or "").startswith(pre):
+                out.add(st["rv"]["adt"])
+        info = body.switch_info(b)
+        if info and info[2].startswith(pre):
+            out.add(info[2])
+    return out
+
+
 def _dominated_by_edges(body, edges, target):
     """every path entry -> target uses one of the edges."""
     if not edges:
@@ -769,7 +784,8 @@ def rule_p3(ctx):
     other = [b for b in region if sb.term(b)["k"] == "call" and mir.callee(sb.term(b)) == PUSH_PANIC_IF and _reason_of(sb, sb.term(b)) != {"OutOfBounds"}]
     # read phase: inside the accessor loop under Accessor::ArrayAccess; write phase: inside the write-back loop under Assign::Array
     acc_sw = [b for b in region if (sb.switch_info(b) or (None, None, ""))[2] == "ast::Accessor"]
-    asg_sw = [b for b in region if (sb.switch_info(b) or (None, None, ""))[2].endswith("::Assign")]
+    local_adts = local_record_adts(sb)
+    asg_sw = [b for b in region if (sb.switch_info(b) or (None, None, ""))[2] in local_adts]
     # the read phase is the loop over the accessors that records what was read (Assign::*); a loop that only evaluates the
     # index expressions beforehand reads nothing
     def records(sw):
@@ -777,7 +793,7 @@ def rule_p3(ctx):
         if not lps:
             return True
         lp = min(lps, key=lambda l: len(l["body"]))
-        return any(st["k"] == "assign" and st["rv"]["k"] == "aggregate" and (st["rv"].get("adt") or "").endswith("::Assign")
+        return any(st["k"] == "assign" and st["rv"]["k"] == "aggregate" and (st["rv"].get("adt") or "") in local_adts
                    for x in lp["body"] for st in sb.blocks[x]["stmts"])
     acc_sw = [b for b in acc_sw if records(b)]
     if not acc_sw or not asg_sw:
